@@ -689,7 +689,7 @@ pub fn encode_with_fixed_block_size<T: Source>(
         .set_md5_digest(&context.md5_digest());
     stream
         .stream_info_mut()
-        .set_total_samples(src.len_hint().unwrap_or_else(|| context.total_samples()));
+        .set_total_samples(context.total_samples());
     Ok(stream)
 }
 
